@@ -228,6 +228,29 @@ func checkC11(r *core.Run) {
 		}
 	}
 	r.Set("layer_long", fmt.Sprintf("8 padding units x 10 cores x every padding length 0..300 x 3 placements, plus 7 stripped characters in every quantity 0..300 at 3 places of javascript: in 4 spellings: %d", nl))
+	// scheme names: every registered or historical scheme name a special case could be written for, its neighbours
+	// (one character dropped, doubled or appended; every prefix), in three spellings, before four tails
+	var nd int64
+	for _, name := range c11SchemeNames {
+		forms := map[string]bool{name: true, name + "x": true, "x" + name: true, name + "-x": true, "x-" + name: true, name + "s": true}
+		for i := 0; i < len(name); i++ {
+			forms[name[:i]] = true
+			forms[name[:i]+name[i+1:]] = true
+			forms[name[:i+1]+name[i:]] = true
+		}
+		for f := range forms {
+			if f == "" {
+				continue
+			}
+			for _, sp := range []string{f, strings.ToUpper(f), strings.ToUpper(f[:1]) + f[1:]} {
+				for _, tail := range []string{":x", "://h/p?q#f", ":alert(1)", ":"} {
+					eval(sp + tail)
+					nd++
+				}
+			}
+		}
+	}
+	r.Set("layer_scheme_names", fmt.Sprintf("%d scheme names, their prefixes and one-edit neighbours x 3 spellings x 4 tails: %d", len(c11SchemeNames), nd))
 	r.Set("evaluations", evals)
 	r.Set("distinct_nontrivial", nontriv)
 	r.Set("rule", "exhaustive enumeration per layer (layer_* keys); non-trivial = the input contains ':' or '&', i.e. the accept/reject decision depends on scheme analysis rather than on the trivial no-special-character path")
@@ -236,6 +259,13 @@ func checkC11(r *core.Run) {
 	r.Sample(map[string]string{"input": "JaVaScRiPt\x00:x", "output": safehtml.URLSanitized("JaVaScRiPt\x00:x").String()})
 	r.Assume("oracle O2 (WHATWG scheme extraction, validated on WPT urltestdata.json) and O1 character-reference decoding are correct")
 }
+
+// c11SchemeNames: URI schemes (IANA permanent, provisional and historical registrations that browsers or their
+// extensions have handled), with every script-like one.
+var c11SchemeNames = []string{"javascript", "vbscript", "livescript", "jscript", "mocha", "ecmascript", "script", "vbs", "js", "data", "blob", "filesystem", "file",
+	"ftp", "ftps", "sftp", "gopher", "http", "https", "ws", "wss", "mailto", "tel", "sms", "smsto", "mms", "fax", "callto", "sip", "sips", "skype", "facetime", "geo", "maps", "market", "intent",
+	"android-app", "ios-app", "about", "chrome", "chrome-extension", "moz-extension", "ms-appx", "ms-help", "res", "resource", "view-source", "wyciwyg", "feed", "jar", "cid", "mid", "urn", "tag",
+	"news", "nntp", "irc", "ircs", "xmpp", "magnet", "bitcoin", "git", "ssh", "telnet", "ldap", "rtsp", "webcal", "steam", "slack", "zoommtg", "x-javascript", "java", "applescript", "mhtml", "mk", "its", "vnd.ms-excel", "web+foo"}
 
 func c11JS(u string) bool {
 	if whaturl.IsJavascript(u) {
